@@ -220,7 +220,7 @@ function step(l) {
     N++; res = "ok"; break;
   case "add":
     MODE = "str";
-    var nd = nodeAt(l.path), c = nd.real, v = mk(l.kind);
+    var nd = nodeAt(l.path), c = nd.real, v = l.kind === "hole" ? undefined : mk(l.kind);
     if (nd.kids === null) throw new Error("not a container");
     if (l.k === "-") {
       if (!Array.isArray(c)) throw new Error("array expected");
